@@ -187,8 +187,23 @@ pub fn alphabet_r3(t: SignType, other: SignType) -> Alphabet {
     a
 }
 
+/// R2 with wider bounds (thorough): more buffered bytes, more counted chunks, three stored pages.
+pub fn alphabet_r2_big() -> Alphabet {
+    let mut a = alphabet_r2();
+    a.name = "R2-order-big".into();
+    a.max_buf = 80;
+    a.max_count = 6;
+    a.max_pages = 3;
+    a.msgs.push(Message::DataChunksSent(ChunkCount(6)));
+    a.cfg_only.push(false);
+    a.msgs.push(Message::DataChunksSent(ChunkCount(7)));
+    a.cfg_only.push(false);
+    a
+}
+
 pub fn alphabet_by_name(name: &str) -> Option<Alphabet> {
     match name {
+        "R2-order-big" => Some(alphabet_r2_big()),
         "R1-all-lengths" => Some(alphabet_r1(true)),
         "R1-quick-lengths" => Some(alphabet_r1(false)),
         "R2-order" => Some(alphabet_r2()),
@@ -218,6 +233,17 @@ pub fn hashed_size<T: std::hash::Hash>(v: &T) -> u64 {
     let mut h = CountingHasher::default();
     v.hash(&mut h);
     h.0
+}
+
+/// The hidden chunk counter of a real VirtualSign, read from its derived Debug output (model-independent; None if
+/// the field is not there any more). Used only as a safety bound for new states, so that an implementation whose
+/// counter is not reset cannot make the search run away.
+pub fn hidden_chunk_counter(sign: &VirtualSign<'_>) -> Option<u64> {
+    let d = format!("{:?}", sign);
+    let i = d.rfind("data_chunks: ")?;
+    let rest = &d[i + 13..];
+    let end = rest.find(|c: char| !c.is_ascii_digit())?;
+    rest[..end].parse().ok()
 }
 
 #[derive(Clone, Copy, PartialEq, Eq, Debug)]
@@ -274,6 +300,9 @@ impl System for SignSys {
             && s.model.pages.len() <= self.alpha.max_pages
             && s.real.pages().len() <= self.alpha.max_pages
             && hashed_size(&s.real) <= 256 + 2 * (self.alpha.max_buf as u64 + 64) * (self.alpha.max_pages as u64 + 2)
+    }
+    fn within_bounds_new(&self, s: &SignState) -> bool {
+        hidden_chunk_counter(&s.real).map(|c| c <= self.alpha.max_count as u64 + 2 || c >= 65530).unwrap_or(true)
     }
     fn action_json(&self, a: usize) -> Value {
         json!(msg_str(&self.alpha.msgs[a]))
@@ -502,6 +531,9 @@ impl System for BusSys {
     fn within_bounds(&self, s: &BusState) -> bool {
         s.shadow.iter().all(|m| m.buf.len() <= self.cfg.max_buf && m.count <= self.cfg.max_count && m.pages.len() <= self.cfg.max_pages)
             && (0..s.iso.len()).all(|i| s.bus.sign(i).pages().len() <= self.cfg.max_pages && hashed_size(s.bus.sign(i)) <= 256 + 2 * (self.cfg.max_buf as u64 + 64) * (self.cfg.max_pages as u64 + 2))
+    }
+    fn within_bounds_new(&self, s: &BusState) -> bool {
+        (0..s.iso.len()).all(|i| hidden_chunk_counter(s.bus.sign(i)).map(|c| c <= self.cfg.max_count as u64 + 2).unwrap_or(true))
     }
     fn action_json(&self, a: usize) -> Value {
         json!(msg_str(&self.cfg.msgs[a]))
